@@ -477,6 +477,8 @@ class StopThenAwaitLoose(nfa.Spec):
             if ph != "stop_failed":
                 return nfa.Err("R04.4: error propagated in phase %s" % ph)
             return ("errret",)
+        if ev == "retval:Err" and ph == "stop_failed":
+            return ("errret",)  # `match self.stop() { Ok(()) => .., Err(e) => Err(e) }` spells out the `?`
         if ev == "ret":
             if ph in ("awaited", "errret", "no_actor", "joined"):
                 return st
